@@ -133,11 +133,14 @@ def run(ctx: Ctx) -> None:
     cl = ply.func("Lexer.clone")
     txt = norm(cl)
     # inside `if object:` both tables are replaced by fresh containers whose function entries are re-bound to the new object
-    objif = [s for s in cl.body if isinstance(s, ast.If) and norm(s.test) == "object"]
-    ok = bool(objif) and "copy.copy(self)" in txt
+    owner = cl.args.args[1].arg if len(cl.args.args) > 1 else "object"
+    # the re-binding happens when an owner object is given: `if owner:` block, or everything after `if not owner: return c`
+    objif = [s for s in cl.body if isinstance(s, ast.If) and norm(s.test) == owner]
+    early = [s for s in cl.body if isinstance(s, ast.If) and norm(s.test) == f"not {owner}" and s.body and isinstance(s.body[-1], ast.Return)]
+    ok = (bool(objif) or bool(early)) and "copy.copy(self)" in txt
     why_clone = []
     if ok:
-        body = objif[0].body
+        body = objif[0].body if objif else cl.body[cl.body.index(early[0]) + 1:]
         nodes_ = [x for b in body for x in ast.walk(b)]
 
         def fresh(v: ast.AST, depth: int = 0) -> bool:
@@ -151,7 +154,7 @@ def run(ctx: Ctx) -> None:
             return False
 
         def rebound(v: ast.AST) -> bool:
-            return isinstance(v, ast.Call) and isinstance(v.func, ast.Name) and v.func.id == "getattr" and len(v.args) == 2 and norm(v.args[0]) == "object" and norm(v.args[1]).endswith(".__name__")
+            return isinstance(v, ast.Call) and isinstance(v.func, ast.Name) and v.func.id == "getattr" and len(v.args) == 2 and norm(v.args[0]) == owner and norm(v.args[1]).endswith(".__name__")
 
         for table in ("lexstatere", "lexstateerrorf"):
             stores = [x for x in nodes_ if isinstance(x, ast.Assign) and any(attr_chain(t) == ("c", table) for t in x.targets)]
@@ -174,7 +177,7 @@ def run(ctx: Ctx) -> None:
             ok = False
             why_clone.append("a rule function is copied into the clone without being re-bound to the new object")
     ctx.ob("R15.2", "_ply.lex:Lexer.clone|object-bound clone gets its own rule and error tables", ok,
-           msg="Lexer.clone: " + ("; ".join(why_clone) or "no `if object:` re-binding block / no shallow copy of the lexer"), node=cl, mod=ply)
+           msg="Lexer.clone: " + ("; ".join(why_clone) or "no re-binding block for the new owner / no shallow copy of the lexer"), node=cl, mod=ply)
     # the package never calls table-mutating Lexer methods
     for m in repo.modules.values():
         if m.name.startswith("_ply"):
